@@ -86,6 +86,9 @@ def run(chk):
         rows.append('(match split ti %s %s %s with None => true | Some _ => false end)' % (fsc, heap, root))
       else:
         s = sf['ok']
+        if s.get('merge_unsorted_equal') is False:
+          chk.violation('oracle', 'merge depends on the order of the entries inside a state (a State rebuilt from its leaves in reverse order, or built by merge_state in reverse order, '
+                        'merges to another graph)', {'case': c})
         if not s['merge_equal'] or not s['merge_permuted_equal']:
           chk.violation('oracle', 'merging the states of a filtered split (in the given or in reversed order) does not rebuild the graph', {'case': c, 'observed': s})
         if s['state_buckets'] != s['buckets']:
